@@ -30,6 +30,14 @@ func (m *Machine) mkTime(ns *Term, loc Value) Struct {
 
 func (m *Machine) timeNow() Value {
 	c := m.ctx
+	if m.fixedClock {
+		// a harness that does not depend on time: concrete, strictly increasing instants
+		m.clockTick++
+		t := c.BV(1_700_000_000_000_000_000+m.clockTick*1_000_000, 64)
+		m.clock = t
+		m.ghost["clock.last"] = t
+		return m.mkTime(t, nil)
+	}
 	t := m.fresh("env:clock", "u64", 64)
 	if m.clock != nil {
 		m.pc = append(m.pc, c.Cmp(OSLe, m.clock, t))
@@ -49,6 +57,11 @@ func tm(v Value) Struct {
 func registerTime(m *Machine) {
 	I := m.Intr
 	c := m.ctx
+	// vfFixedClock(on): time.Now returns concrete increasing instants instead of symbolic ones
+	I["vfFixedClock"] = func(m *Machine, fr *frame, a []Value, _ *ssa.CallCommon) Value {
+		m.fixedClock = a[0].(*Term).IsTrue()
+		return nil
+	}
 	I["time.Now"] = func(m *Machine, fr *frame, a []Value, _ *ssa.CallCommon) Value { return m.timeNow() }
 	I["time.Unix"] = func(m *Machine, fr *frame, a []Value, _ *ssa.CallCommon) Value {
 		sec, nsec := a[0].(*Term), a[1].(*Term)
